@@ -11,7 +11,10 @@ RULE = ("one-statement programs 输出‹expr› after a 令/输入 prelude (one
         "the programs 10–25 % of the leaves are members of texts: 长度 / 字数 and 转换数值 as numbers, 匹配 / 匹配开头 / 匹配结尾 as truth values, 替换 分隔 取样 去除空格 "
         "转小写-英文 转大写-英文 拼接 格式化 as other values); planted "
         "display calls in operands (order, short-circuit); 0–15 % deliberately ill-typed operands. Non-trivial = at least two operators "
-        "in the source. The generator's intended tree (minimal braces ⇒ precedence/associativity) is compared with the real parser's tree.")
+        "in the source. The generator's intended tree (minimal braces ⇒ precedence/associativity) is compared with the real parser's tree. "
+        "Stream `cmp` (120 programs, 4–8 comparisons each, props/edges.py): 为 / 不为 / == / /= and the ordering operators on lists and dictionaries of "
+        "unequal length, with other key sets / key orders, with an item that cannot be compared (object, method, type, exception value) at "
+        "every position before and after a differing item, one or two levels down, through 包含 / 寻找; every pair of value types.")
 ASSUMPTIONS = ["IEEE-754 arithmetic, floor, comparisons of float64: Go runtime vs Lean Float, compared bit-for-bit per case, not proved",
                "strconv.ParseFloat / fmt %v: reimplemented in Ops/FloatNum.lean for the driver, compared per case"]
 PARTIAL = "arithmetic itself and decimal→double rounding are the runtime's (NumOps is abstract in every theorem)"
@@ -47,3 +50,11 @@ def run(ctx):
                     Ret(Bin('|', Bin('-', Bin('*', Bin('+', Var('和'), Num('1')), Num('2')), Var('计')), Num('3')))]
             soak.append((Program([], body), {}))
     progs.run_stream(ctx, 'soak', soak, nontrivial=lambda src, go: True)
+    # comparisons of collections (after the other streams, so that those are what they were for a given seed): unequal lengths, other
+    # key sets, items that cannot be compared at every position, nested — props/edges.py
+    from props import edges
+    st = {}
+    cs = edges.cmp_programs(ctx.rng, ctx.n(120, 6000), st)
+    progs.run_stream(ctx, 'cmp', cs, nontrivial=lambda src, go: True)
+    for k, v in sorted(st.items()):
+        ctx.count('cmp:gen:' + k, v)
